@@ -377,6 +377,13 @@ def _add_camera_tracks(rng, world, prof):
             else:
                 st["roi"] = [max(0, x + vx * i), max(0, y + vy * i), wi, hi]
                 st["cam"] = cam
+        # overlapping fields of view: the same instance is annotated in a second camera as well (same instance token)
+        if len(cams) >= 2 and hand is None and rng.random() < 0.12:
+            cam_b = rng.choice([c for c in cams if c != cam])
+            xb, yb = rng.randint(0, IMG_W - w), rng.randint(0, IMG_H - h)
+            for i, st in enumerate(a["states"]):
+                if st is not None and rng.random() < 0.8:
+                    st["also"] = {"roi": [max(0, xb + vx * i), max(0, yb + vy * i), st["roi"][2], st["roi"][3]], "cam": cam_b}
 
 
 def _make_storage(rng, prof):
@@ -936,6 +943,14 @@ def make_plan(seed, run, profile_name, clean=None, force=None):
                 o["faults"].append("wrong_frame_id")
                 note("wrong_frame_id")
             objs.append(o)
+            if dim2 and a["states"][si].get("also") and not f:
+                # the second camera sees the target too: one more detection of the same track
+                o2 = copy.deepcopy(o)
+                o2["roi"] = list(a["states"][si]["also"]["roi"])
+                o2["cam"] = a["states"][si]["also"]["cam"]
+                o2["conf"] = _r(min(0.999999, max(0.000001, conf - 0.013)), 6)
+                o2["second_view"] = True
+                objs.append(o2)
             if fire("dup_detection"):
                 d = copy.deepcopy(o)
                 if dim2:
